@@ -4,6 +4,7 @@ import numpy as np
 import common
 from common import fbits, bitsf, show_floats, show_ints, outcome, tmod
 
+DTN = {np.dtype(np.float32): 'f32', np.dtype(np.float64): 'f64', np.dtype(np.int8): 'i8', np.dtype(np.int32): 'i32', np.dtype(np.int64): 'i64', np.dtype(np.bool_): 'bool'}
 DT = {'f32': np.float32, 'f64': np.float64, 'i8': np.int8, 'i32': np.int32, 'i64': np.int64, 'bool': np.bool_}
 
 
@@ -66,6 +67,7 @@ class Impl:
         self.tm = tmod()
         self.ts = []
         self.ctxs = []
+        self.iters = []
         self.fn_owner = {}
         self.trace = None
         self._saved_modes = (self.tm.gradient__, self.tm.retain_grads__)
@@ -117,8 +119,8 @@ class Impl:
             hw, hb, tr = bool(int(args[0])), bool(int(args[1])), bool(int(args[2]))
             w = x[1] if hw else None
             b = (x[2] if hw else x[1]) if hb else None
-            rm = None if args[4] == '-' else sg.Tensor(np.array(common.parse_floats(args[4]), dtype=np.float64))
-            rv = None if args[5] == '-' else sg.Tensor(np.array(common.parse_floats(args[5]), dtype=np.float64))
+            rm = None if args[4] == '-' else sg.Tensor(np.array(common.parse_floats(args[4]), dtype=x[0].data.dtype))
+            rv = None if args[5] == '-' else sg.Tensor(np.array(common.parse_floats(args[5]), dtype=x[0].data.dtype))
             return sg.batch_norm(x[0], w, b, rm, rv, tr, 0.1, bitsf(args[3]))
         raise KeyError(name)
 
@@ -148,9 +150,66 @@ class Impl:
                     self.fn_owner[id(o.grad_fn)] = len(self.ts) - 1
                 names.append(f't{len(self.ts) - 1}')
             return ','.join(names)
+        if c == 'sop':
+            kind, a = t[2], self.ts[int(t[3])]
+            b = self.ts[int(t[4][1:])] if t[4][0] == 't' else bitsf(t[4][1:])
+            hidden = {'add': 1, 'mul': 1, 'neg': 1, 'rsub': 3, 'rdiv': 2}.get(kind)
+            if kind == 'sub': hidden = 2 if t[4][0] == 't' else 1
+            if kind == 'div': hidden = 1
+            if kind == 'add': r = a + b
+            elif kind == 'mul': r = a * b
+            elif kind == 'neg': r = -a
+            elif kind == 'sub': r = a - b
+            elif kind == 'rsub': r = b - a
+            elif kind == 'div': r = a / b
+            elif kind == 'rdiv': r = b / a
+            else: raise KeyError(kind)
+            self.ts += [None] * hidden      # the intermediate tensors of the operator are nodes of the model too
+            self.ts.append(r)
+            if r.grad_fn is not None: self.fn_owner[id(r.grad_fn)] = len(self.ts) - 1
+            return f't{len(self.ts) - 1}'
+        if c == 'loss':
+            from synapgrad import nn
+            cls = {'mse_loss': nn.MSELoss, 'nll_loss': nn.NLLLoss, 'binary_cross_entropy': nn.BCELoss,
+                   'binary_cross_entropy_with_logits': nn.BCEWithLogitsLoss, 'cross_entropy': nn.CrossEntropyLoss}[t[2]]
+            r = cls(reduction=t[3])(self.ts[int(t[4])], self.ts[int(t[5])])
+            if t[3] != 'none': self.ts.append(None)      # the unreduced loss tensor
+            self.ts.append(r)
+            if r.grad_fn is not None: self.fn_owner[id(r.grad_fn)] = len(self.ts) - 1
+            return f't{len(self.ts) - 1}'
+        if c == 'iter':
+            if t[2] == 'new':
+                self.iters.append(iter(self.ts[int(t[3])])); return f'it{len(self.iters) - 1}'
+            try:
+                r = next(self.iters[int(t[3])])
+            except StopIteration:
+                return 'stop'
+            self.ts.append(r); return f't{len(self.ts) - 1}'
+        if c == 'ctor':
+            dims = common.parse_ints(t[4])
+            if t[2] == 'like':
+                r = (sg.ones_like if t[3] == '1' else sg.zeros_like)(self.ts[dims[0]])
+            else:
+                f = sg.ones if t[2] == 'ones' else sg.zeros
+                r = f(*dims) if t[3] == 'v' else f(tuple(dims)) if t[3] == 't' else f(list(dims))
+            self.ts.append(r); return f't{len(self.ts) - 1}'
+        if c == 'eye':
+            self.ts.append(sg.eye(int(t[2]))); return f't{len(self.ts) - 1}'
+        if c == 'arange':
+            self.ts.append(sg.arange(int(t[2]), int(t[3]), int(t[4]))); return f't{len(self.ts) - 1}'
+        if c == 'gdtype':
+            x = self.ts[int(t[2])]
+            if x is None: return 'hidden'
+            if x._grad is None: return '-'
+            if x._grad.shape != x.data.shape: return f'shape{x._grad.shape}'
+            return DTN.get(x._grad.dtype, str(x._grad.dtype))
+        if c == 'dtype':
+            if self.ts[int(t[2])] is None: return 'hidden'
+            return {np.dtype(np.float32): 'f32', np.dtype(np.float64): 'f64', np.dtype(np.int8): 'i8', np.dtype(np.int32): 'i32',
+                    np.dtype(np.int64): 'i64', np.dtype(np.bool_): 'bool'}.get(self.ts[int(t[2])].data.dtype, str(self.ts[int(t[2])].data.dtype))
         if c == 'bw':
             shape = tuple(common.parse_ints(t[3]))
-            g = sg.Tensor(np.array(common.parse_floats(t[4]), dtype=np.float64).reshape(shape))
+            g = sg.Tensor(np.array(common.parse_floats(t[4]), dtype=np.float64).reshape(shape).astype(DT[t[5]] if len(t) > 5 else np.float64))
             tr = self.traced(lambda: self.ts[int(t[2])].backward(g))
             return 'ok trace=' + (','.join(tr) if tr else '_')
         if c == 'zero':
@@ -169,6 +228,8 @@ class Impl:
         if c == 'modes':
             return f'{int(self.tm.gradient__)}{int(self.tm.retain_grads__)}'
         x = self.ts[int(t[2])]
+        if x is None:
+            return 'hidden'      # an intermediate tensor of an operator form: exists in the model, not reachable here
         if c == 'grad':
             return '-' if x._grad is None else show_arr(x._grad)
         if c == 'val':
@@ -183,7 +244,7 @@ class Impl:
         sg = self.sg
         BF = sg.functional.BackwardFunction
         T = sg.Tensor
-        idx = {id(x): k for k, x in enumerate(self.ts)}
+        idx = {id(x): k for k, x in enumerate(self.ts) if x is not None}
         log = []
         oc, oz = BF.__call__, T.zero_
         def call(s):
@@ -236,11 +297,16 @@ def strip_release(tr):
 
 
 def close_line(m, i, rtol=1e-9):
-    if m == i: return True
+    if m == i or i == 'hidden': return True
     if m.startswith('ok trace=') and i.startswith('ok trace='):
         return strip_release(m) == strip_release(i) or '?' in i
     return close_arr(m, i, rtol)
 
 
+QUERIES = ('t val ', 't grad ', 't flags ', 't dtype ', 't gdtype ')
+
+
 def diff_program(lines, mo, io, rtol=1e-9):
-    return [(lines[k], m[:300], str(i)[:300]) for k, (m, i) in enumerate(zip(mo, io)) if not close_line(m, i, rtol)][:3]
+    """a query about a tensor that was never created answers bad-op (model) / rejected (IndexError): same thing"""
+    return [(lines[k], m[:300], str(i)[:300]) for k, (m, i) in enumerate(zip(mo, io))
+            if not close_line(m, i, rtol) and not (m == 'bad-op' and i == 'rejected' and lines[k].startswith(QUERIES))][:3]
